@@ -162,17 +162,20 @@ def expect (s : S) (m : St) (rec : String) : S × List String :=
 def stripGt (ws : List String) : String :=
   " ".intercalate (ws.filter fun w => !(w.startsWith "gt="))
 
+def initFromCfg (rest : List String) : Option St :=
+  let get (k : String) : String := (rest.find? (·.startsWith (k ++ "="))).map (fun w => (w.drop (k.length + 1)).toString) |>.getD ""
+  let meth := match get "method" with
+    | "epoll-timerfd" => some Method.epollTimerfd | "epoll" => some Method.epoll
+    | "ppoll" => some Method.ppoll | "poll" => some Method.poll | _ => none
+  meth.map fun meth => St.init meth 64 (get "timerfd" == "1") true
+
 def step (s : S) (ws : List String) : S × List String :=
   let s := { s with line := s.line + 1 }
   if s.stop then (s, []) else
   match s.m, ws with
   | none, "CFG" :: rest =>
-    let get (k : String) : String := (rest.find? (·.startsWith (k ++ "="))).map (fun w => (w.drop (k.length + 1)).toString) |>.getD ""
-    let meth := match get "method" with
-      | "epoll-timerfd" => some Method.epollTimerfd | "epoll" => some Method.epoll
-      | "ppoll" => some Method.ppoll | "poll" => some Method.poll | _ => none
-    match meth with
-    | some meth => ({ s with m := some (St.init meth 64 (get "timerfd" == "1") true) }, [])
+    match initFromCfg rest with
+    | some m => ({ s with m := some m }, [])
     | none => diverge s "unknown poll method"
   | none, _ => diverge s "log does not start with CFG"
   | some m, "API" :: name :: args =>
@@ -241,6 +244,18 @@ def step (s : S) (ws : List String) : S × List String :=
   | some m, ["MAINRET"] => expect s m "MAINRET"
   | some _, "CLK" :: _ => (s, [])
   | some _, "GT" :: _ => (s, [])
+  | some _, "FDFLAGS" :: _ => (s, [])
+  | some _, "LEDGER" :: _ => (s, [])
+  | some _, "LEDGER-LIVE" :: _ => (s, [])
+  | some _, "CYCLE-SKIPPED" :: _ => (s, [])
+  | some m, "CFG" :: _ =>
+    -- the loop was torn down and re-initialised (`cycle`): a fresh machine; only legal outside iv_main with nothing pending
+    if !s.expected.isEmpty then diverge s "loop re-initialised while the model still predicts output"
+    else
+      -- latched process-wide flags survive re-initialisation
+      match initFromCfg (ws.drop 1) with
+      | some m' => ({ s with m := some { m' with useRaw := m.useRaw, pwait2 := m.pwait2 } }, [])
+      | none => diverge s "unknown poll method"
   | some _, "RAWPOST" :: _ => (s, [])
   | some m, [e] =>
     if e == "BLOCKED" || e == "WAITLIMIT" || e == "CBLIMIT" || e == "EOF" then
